@@ -156,8 +156,9 @@ def numeric_fp(eq, points=3):
     return out
 
 
-def probe_args(func, g):
-    """fixed, history-independent arguments for a calculate_* function: magnitude from the parameter name"""
+def probe_args(func, g, attempt=0):
+    """fixed, history-independent arguments for a calculate_* function: magnitude from the parameter name (and the number
+    of the attempt: a function that refuses one tuple - outside its domain - is tried with up to four others)"""
     import inspect
     from vf.checks import c04
     inner = g["inner"]
@@ -166,12 +167,12 @@ def probe_args(func, g):
     for p in params:
         if p not in g["inputs"]:
             return None
-        kwargs[p] = c04.valid_arg(g["inputs"][p], c04.kind_of_param(inner, p), param_mag(func, p))
+        kwargs[p] = c04.valid_arg(g["inputs"][p], c04.kind_of_param(inner, p), param_mag(func, p, attempt))
     return kwargs
 
 
-def param_mag(func, p):
-    hd = hashlib.sha1(f"{func.__name__}.{p}".encode()).digest()
+def param_mag(func, p, attempt=0):
+    hd = hashlib.sha1(f"{func.__name__}.{p}.{attempt}".encode() if attempt else f"{func.__name__}.{p}".encode()).digest()
     return 1 + (hd[0] % 40) / 10
 
 
@@ -323,8 +324,16 @@ def observe_module(name, rec, probe, out):
                         continue
                     rec.add("probes_with_undeclared_parameters")
                 else:
-                    with harness.Watchdog(60):
-                        res = func(**kwargs)
+                    for attempt in range(5):
+                        try:
+                            with harness.Watchdog(60):
+                                res = func(**(kwargs if attempt == 0 else probe_args(func, g, attempt)))
+                            break
+                        except TimeoutError:
+                            raise
+                        except Exception:  # pylint: disable=broad-except
+                            if attempt == 4:
+                                raise
                 rec_m["probe"][fname] = result_repr(res)
             except TimeoutError:
                 rec_m["probe"][fname] = ["watchdog"]
